@@ -413,7 +413,13 @@ C16_IdsFresh(x) ==
     /\ NoDup([i \in 1..Len(x.post.shards) |-> x.post.shards[i].id])
     /\ x.post.oc - x.pre.oc = Len(NewOrders(x)) + Cardinality({id \in x.pre.oc..(x.post.oc - 1) : ~HasOrder(x.post, id)})
 C16_Update_app(x) == Ok(x) /\ Kind(x) = "Store" /\ HasMeta(x.pre, x.ev.data)
-C16_OneInFlight(x) == MetaOf(x.pre, x.ev.data).status = MComplete
+\* (the model's own status field says so, and no order for this data id is in fact still under way)
+C16_OneInFlight(x) ==
+    /\ MetaOf(x.pre, x.ev.data).status = MComplete
+    /\ \A i \in 1..Len(x.pre.orders) : LET o == x.pre.orders[i] IN
+          \* (an order left over from an earlier, terminated model of the same data id is not an update of this one)
+          (o.data = x.ev.data /\ o.created >= MetaOf(x.pre, x.ev.data).created /\ MetaOf(x.pre, x.ev.data).orders # <<>>
+           /\ o.id >= MetaOf(x.pre, x.ev.data).orders[1]) => o.status = OCompleted
 \* the latest COMMITTED version is the last entry of the model's history (not merely what its commit field says: an
 \* abandoned update must not leave its never-committed id there for the next update to build on)
 LatestCommitted(m) == IF m.commits = <<>> THEN m.commit ELSE m.commits[Len(m.commits)].c
